@@ -329,21 +329,21 @@ Section Readers.
               let '(ws2, oc) := rdc f p' r in (ws ++ ws2, oc)
             else if ty =? COMP_CHAR then
               match t with
-              | [] => ([], RPanicIndex)
+              | [] => ([], ROk)                          (* after C02's fix: `if o >= bytes.len() { break }` *)
               | code :: t' =>
                   let '(ws, p', r) := rd_char code n p t' in
                   let '(ws2, oc) := rdc f p' r in (ws ++ ws2, oc)
               end
             else if ty =? COMP_ATTR then
               match t with
-              | [] => ([], RPanicIndex)
+              | [] => ([], ROk)                          (* after C02's fix: `if o >= bytes.len() { break }` *)
               | a :: t' =>
                   let '(ws, p', r) := rd_attr a n p t' in
                   let '(ws2, oc) := rdc f p' r in (ws ++ ws2, oc)
               end
             else if ty =? COMP_FULL then
               match t with
-              | [] => ([], RPanicIndex)
+              | [] => ([], ROk)                          (* after C02's fix: `if o >= bytes.len() { break }` *)
               | [_] => ([], ROk)                       (* `break` out of the while loop *)
               | code :: a :: r =>
                   let '(ws, p') := rd_full code a n p in
